@@ -201,6 +201,51 @@ func genC01(c *Cfg, emit func([]string)) {
 		}
 	}
 	flush()
+	// the backward-compatible helper CheckSign, called by a method that authenticates itself: every
+	// listed key must sign (ed25519), over fn ++ argument ++ keys
+	legacy := func(nsign int, states []string, acl string) symReq {
+		fn := fmt.Sprintf("legacy%dNb", nsign)
+		r := symReq{route: "legacy", fn: fn, argc: 2, envcc: "vt", envch: "vt", acl: acl}
+		keys := make([]string, nsign)
+		for i := range keys {
+			keys[i] = fmt.Sprintf("{K%d}", i)
+			r.keys = append(r.keys, keys[i]+"=ed")
+		}
+		r.keys = append(r.keys, "{K9}=ed")
+		arg := "a" + freshNonce()
+		msg := fn + arg + strings.Join(keys, "")
+		r.args = append([]string{arg}, keys...)
+		for i, st := range states {
+			s := fmt.Sprintf("{S%d}", i)
+			switch st {
+			case "valid":
+				r.sigs = append(r.sigs, fmt.Sprintf("%s=v.ed.%s.%s", s, keys[i], msg))
+			case "blank":
+				s = ""
+			case "junk":
+				r.sigs = append(r.sigs, s+"=j")
+			case "nonb58":
+				r.sigs = append(r.sigs, s+"=n")
+			case "foreign":
+				r.sigs = append(r.sigs, fmt.Sprintf("%s=v.ed.{K9}.%s", s, msg))
+			case "othermsg":
+				r.sigs = append(r.sigs, fmt.Sprintf("%s=v.ed.%s.%sX", s, keys[i], msg))
+			}
+			r.args = append(r.args, s)
+		}
+		return r
+	}
+	for _, st := range sigStates {
+		for _, acl := range []string{aclOK("ed", 1, 0), "status", "empty", "garbled", "ok:A1:ed:0:101", "ok:A1:ed:0:100001"} {
+			add(legacy(1, []string{st}, acl))
+		}
+	}
+	for _, s0 := range sigStates {
+		for _, s1 := range sigStates {
+			add(legacy(2, []string{s0, s1}, aclOK("ed", 2, 1)))
+		}
+	}
+	flush()
 	// duplicate key listed twice with two valid signatures: must count as one signer
 	for _, kt := range kts {
 		for _, route := range routes {
